@@ -912,6 +912,9 @@ class Ops:
             return replace(elem, items=tuple(x.but(gen=x.gen | {lid}) if isinstance(x, TV) else x for x in elem.items))
         return elem
 
+    def induction(self, head, nxt, lid, info) -> bool:
+        return False
+
     def loop_back(self, env, lid, info):
         pass
 
